@@ -765,6 +765,8 @@ double __sym_un(const char* name, double a) {
       if (fresh) { use_axiom("sqrt: s>=0 and s*s=x"); add_pc(ap.val >= 0 && ap.val * ap.val == x); (*sqrt_of).insert({ap.val.to_string(), ta}); mono_axioms("sqrt", ap, true); }
       return ap.h;
     }
+    if (n == "log1p") return trans_app("log", __sym_bin(14, 1.0, a));      // log1p(x) = log(1 + x), expm1(x) = exp(x) - 1 in exact arithmetic
+    if (n == "expm1") return __sym_bin(16, trans_app("exp", a), 1.0);
     if (n == "floor") return (double)sym_trunc_enum(a, "floor", 1);
     if (n == "ceil") return (double)sym_trunc_enum(a, "ceil", 2);
     if (n == "trunc") return (double)sym_trunc_enum(a, "trunc", 0);
